@@ -29,6 +29,9 @@ type Net struct {
 	history []string // op lines of this scenario (the replay)
 	mon     *Monitors
 	lastAdvOp string
+	now      float64         // virtual time (unit: the election timeout of view 0)
+	deadline map[int]float64 // per correct node: when its election timer fires
+	timely   bool            // stabilised phase: no concurrent cancellations injected
 }
 
 type Flight struct {
@@ -113,6 +116,21 @@ func (net *Net) event(n *RealNode, ev string, f func() (string, string)) {
 			ev = "lsync " + strings.TrimPrefix(ev, "update ")
 		}
 	}
+	// virtual timers: every election registration of the event (re)arms the node's timer with base*2^view
+	for _, o := range n.outs {
+		if strings.HasPrefix(o, "reg:") {
+			var rh, rv uint64
+			if _, err := fmt.Sscanf(o, "reg:%d:%d", &rh, &rv); err == nil {
+				if net.deadline == nil {
+					net.deadline = map[int]float64{}
+				}
+				if rv > 60 {
+					rv = 60
+				}
+				net.deadline[n.Idx] = net.now + float64(uint64(1)<<rv)
+			}
+		}
+	}
 	line := fmt.Sprintf("%d %s", n.Idx, ev)
 	if spi != "" {
 		line += " " + spi
@@ -173,7 +191,7 @@ func (net *Net) deliverFlight(f *Flight) {
 }
 
 func (net *Net) timeout(n *RealNode, stale bool) {
-	if net.r.Intn(12) == 0 { // the node becomes leader by its own timeout while a trigger is handled concurrently
+	if !net.timely && net.r.Intn(12) == 0 { // the node becomes leader by its own timeout while a trigger is handled concurrently
 		n.CancelDuring = 1 + net.r.Intn(3)
 		defer func() { n.CancelDuring = 0 }()
 	}
@@ -286,5 +304,178 @@ func (net *Net) run(p SchedProfile) {
 				n.CancelDuring, n.CommitCbFails = 0, false
 			}
 		}
+	}
+}
+
+
+func (net *Net) weightOf(ns []*RealNode) (uint64, uint64) {
+	var w, total uint64
+	for _, m := range net.members {
+		total += uint64(m.Weight)
+		for _, n := range ns {
+			if string(n.Id) == string(m.Id) {
+				w += uint64(m.Weight)
+			}
+		}
+	}
+	return w, total
+}
+
+// stabilise (C05): from the state the scenario has reached, the network turns timely: every message
+// in flight among correct members is delivered before any election timer fires; timers fire in the
+// order of their deadlines (registration time + 2^view time units); the adversary keeps acting.
+// If the correct members deciding the newest height hold quorum weight, a block must be committed
+// at that height within a bounded number of timer firings, and every correct member that accepted
+// the committed view's proposal commits it.
+func (net *Net) stabilise() {
+	c := net.c
+	H := net.maxHeight()
+	if H == 0 {
+		return
+	}
+	net.timely = true
+	defer func() { net.timely = false }()
+	if net.r.Intn(2) == 0 { // laggards are brought to the newest height by node sync
+		for _, n := range net.order {
+			if uint64(n.St.Height()) < H {
+				net.sync(n, H-1)
+			}
+		}
+	}
+	var G []*RealNode
+	for _, n := range net.order {
+		if uint64(n.St.Height()) == H {
+			G = append(G, n)
+		}
+	}
+	wG, total := net.weightOf(G)
+	f := (total - 1) / 3
+	if wG < total-f {
+		c.Class("stabilise/premise-not-met")
+		return
+	}
+	if net.deadline == nil {
+		net.deadline = map[int]float64{}
+	}
+	for _, n := range G {
+		if _, ok := net.deadline[n.Idx]; !ok || net.deadline[n.Idx] < net.now {
+			v := uint64(n.St.View())
+			if v > 60 {
+				v = 60
+			}
+			net.deadline[n.Idx] = net.now + float64(uint64(1)<<v)
+		}
+	}
+	committed := func() *RealNode {
+		for _, n := range G {
+			for _, cm := range n.Commits {
+				if cm.Block != nil && cm.Block.H == H {
+					return n
+				}
+			}
+		}
+		return nil
+	}
+	// only traffic of height H matters here; what correct members send for later heights is left in flight
+	var later []*Flight
+	drain := func() {
+		for k := 0; len(net.pool) > 0 && k < 20000; k++ {
+			fl := net.pool[0]
+			net.pool = net.pool[1:]
+			if m := interfaces.ToConsensusMessage(fl.Raw); m != nil && uint64(m.BlockHeight()) > H {
+				later = append(later, fl)
+				continue
+			}
+			net.deliverFlight(fl)
+			if len(net.byz) > 0 && net.r.Intn(12) == 0 {
+				net.adv.act()
+			}
+		}
+	}
+	defer func() { net.pool = append(later, net.pool...) }()
+	startViews := ""
+	for _, n := range G {
+		startViews += fmt.Sprintf(" %d:v%d", n.Idx, uint64(n.St.View()))
+		if uint64(n.St.View()) > 30 {
+			// election timeouts saturate (MaxInt64 ns, C19): above that the doubling that lets members in lower
+			// views catch up no longer happens; such views need centuries of real time and are outside the premise
+			c.Class(fmt.Sprintf("stabilise/premise-not-met/views-near-saturation/v%d", uint64(n.St.View())/20*20))
+			return
+		}
+	}
+	bound := 40 + 12*len(net.members)
+	firings := 0
+	for {
+		drain()
+		if n := committed(); n != nil {
+			drain()
+			// every correct member of G that accepted the proposal of the committed view commits it
+			var cv uint64
+			var blk *FakeBlock
+			for _, cm := range n.Commits {
+				if cm.Block != nil && cm.Block.H == H {
+					blk = cm.Block
+					// the view the block was committed in: the block reference of the proof handed to the consumer
+					func() {
+						defer func() { recover() }()
+						cv = uint64(protocol.BlockProofReader(cm.Proof).BlockRef().View())
+					}()
+				}
+			}
+			for _, m := range G {
+				pp, ok := m.Store.GetPreprepareMessage(primitives.BlockHeight(H), primitives.View(cv))
+				if !ok || pp == nil {
+					continue
+				}
+				fb, _ := pp.Block().(*FakeBlock)
+				done := false
+				for _, cm := range m.Commits {
+					if cm.Block != nil && cm.Block.H == H {
+						done = true
+					}
+				}
+				if fb != nil && blk != nil && fb.Id == blk.Id && !done && uint64(m.St.Height()) == H {
+					c.Violation("C05", "accepted-but-not-committed", fmt.Sprintf("timely network: node %d committed height %d in view %d; node %d accepted that proposal but did not commit it although every message was delivered", n.Idx, H, cv, m.Idx), net.replay())
+				}
+			}
+			c.Class(fmt.Sprintf("stabilise/committed/firings%d", firings/4*4))
+			c.Nontrivial(fmt.Sprintf("stabilise/%d/%d/%d", len(G), firings, cv))
+			return
+		}
+		if firings >= bound {
+			views := ""
+			for _, n := range G {
+				views += fmt.Sprintf(" %d:v%d", n.Idx, uint64(n.St.View()))
+			}
+			c.Violation("C05", "no-commit-after-stabilisation", fmt.Sprintf("timely network, correct members of weight %d/%d deciding height %d: no commit after %d timer firings (views at stabilisation:%s; now:%s)", wG, total, H, firings, startViews, views), net.replay())
+			c.Class("stabilise/stuck")
+			return
+		}
+		// nothing in flight: the earliest timer fires
+		var first *RealNode
+		for _, n := range G {
+			if uint64(n.St.Height()) != H {
+				continue
+			}
+			if first == nil || net.deadline[n.Idx] < net.deadline[first.Idx] {
+				first = n
+			}
+		}
+		if first == nil {
+			return
+		}
+		if net.deadline[first.Idx] > net.now {
+			net.now = net.deadline[first.Idx]
+		}
+		before := uint64(first.St.View())
+		net.timeout(first, false)
+		if uint64(first.St.View()) == before { // the trigger was not taken (e.g. cancelled meanwhile): re-arm
+			v := before
+			if v > 60 {
+				v = 60
+			}
+			net.deadline[first.Idx] = net.now + float64(uint64(1)<<v)
+		}
+		firings++
 	}
 }
